@@ -18,6 +18,8 @@ pub struct HFacts {
     /// per hop: (deadline_ns, sampled, at_ns, sid, tid)
     pub hstart: BTreeMap<usize, Vec<(i128, bool, i128, u64, u128)>>,
     pub hcurrent: BTreeMap<usize, Vec<(i128, bool, i128, u64, u128)>>,
+    /// (hop, deadline_ns of a deadline-less JSON request decoded inside the handler, at_ns)
+    pub hdefault: Vec<(usize, i128, i128)>,
     pub hdrop: BTreeMap<usize, usize>,
     pub hfinish: BTreeMap<usize, usize>,
     /// per side: messages sent (rec idx, msg, at_ns)
@@ -50,6 +52,7 @@ pub fn hfacts(recs: &[Rec]) -> HFacts {
                     }
                 }
             }
+            Rec::N("hdefault", v) => f.hdefault.push((v[0] as usize, v[1], v[2])),
             Rec::N("hdrop", v) => {
                 f.hdrop.insert(v[0] as usize, i);
             }
@@ -159,6 +162,14 @@ fn c07_eval(cfg: &ChainCfg, e: Exec, failures: &mut Vec<(String, String)>) -> u6
                     ));
                 }
                 if cfg.regime == Regime::Otel {
+                    for (h, d, at) in f.hdefault.iter().filter(|(h, _, _)| *h == hop) {
+                        if *d != *at + 10_000_000_000 {
+                            failures.push((
+                                "C07-default-deadline".into(),
+                                format!("{label}: hop {h}: a JSON request without a deadline decoded inside the handler (at {at}ns) got the deadline {d}ns; the documented default is 10 s from then"),
+                            ));
+                        }
+                    }
                     // [0] asked in the handler's body, [1] asked inside a span of the handler's own
                     let seen = f.hcurrent.get(&hop).cloned().unwrap_or_default();
                     if seen.len() < 2 || seen.iter().any(|(cd, _, _, _, _)| *cd != *got_d) {
@@ -740,11 +751,17 @@ pub fn c18_otel_grid(tier: Tier) -> (u64, Vec<(String, String)>) {
                     for abandon_after in [None, Some(1), Some(2), Some(3)] {
                       // regimes: everything traced; or only the servers traced, behind an
                       // untraced caller whose context is Sampled / Unsampled
-                      for (head_untraced, head_unsampled) in [(false, false), (true, false), (true, true)] {
+                      // ... also with the all-zero trace id (tarpc permits it; under OpenTelemetry it
+                      // makes an "invalid" span context that still carries the sampling flag;
+                      // seeded change C18m dropped the flag for such contexts)
+                      for (head_untraced, head_unsampled, zero_tid) in [(false, false, false), (true, false, false), (true, true, false), (true, false, true), (true, true, true)] {
                         if tier == Tier::Quick && kind == HopKind::Bincode && depth == 3 {
                             continue;
                         }
                         if head_untraced && abandon_after.map(|k| k != 2).unwrap_or(false) {
+                            continue;
+                        }
+                        if zero_tid && (abandon_after.is_some() || !last_finishes) {
                             continue;
                         }
                         let cfg = ChainCfg {
@@ -757,14 +774,14 @@ pub fn c18_otel_grid(tier: Tier) -> (u64, Vec<(String, String)>) {
                             alphabet: 0,
                             own_clients: false,
                             client_mif: 0,
-                            zero_trace_id: false,
+                            zero_trace_id: zero_tid,
                             head_untraced,
                             head_unsampled,
                         };
                         let e = execute_in_place(&cfg, &[]);
                         cells += 1;
                         let f = hfacts(&e.recs);
-                        let label = format!("[otel{}] depth {depth} {kind:?} last_finishes={last_finishes} abandon_after={abandon_after:?}", if head_untraced { if head_unsampled { ", untraced caller, Unsampled" } else { ", untraced caller, Sampled" } } else { "" });
+                        let label = format!("[otel{}{}] depth {depth} {kind:?} last_finishes={last_finishes} abandon_after={abandon_after:?}", if head_untraced { if head_unsampled { ", untraced caller, Unsampled" } else { ", untraced caller, Sampled" } } else { "" }, if zero_tid { ", trace id 0" } else { "" });
                         for p in &f.panics {
                             fails.push(("C18-otel-panic".into(), format!("{label}: {p}")));
                         }
@@ -776,7 +793,7 @@ pub fn c18_otel_grid(tier: Tier) -> (u64, Vec<(String, String)>) {
                             else {
                                 break;
                             };
-                            if *tid == 0 {
+                            if *tid == 0 && !zero_tid {
                                 fails.push(("C18-otel-no-trace-id".into(), format!("{label}: hop {hop} transmitted an all-zero trace id")));
                             }
                             if let Some(t) = chain_tid {
